@@ -13,3 +13,79 @@ Fixpoint np_set (l : list Z) (i v : Z) : list Z :=
   | [] => []
   | x :: t => if i =? 0 then v :: t else x :: np_set t (i - 1) v
   end.
+
+(** ** fancy indexing idioms of [_update_lengths] / [merge_maps] *)
+
+(** first position of [x] in [l], counted from [i0] *)
+Fixpoint np_index_of (x : Z) (i0 : Z) (l : list Z) : option Z :=
+  match l with
+  | [] => None
+  | y :: t => if y =? x then Some i0 else np_index_of x (i0 + 1) t
+  end.
+
+(** [numpy.intersect1d(a, b, assume_unique=True, return_indices=True)]: for every element of [a]
+    (positions from [i0]) that occurs in [b], the pair (its index in [a], its index in [b]).
+    numpy orders the result by the common VALUE; [a] is sorted at the only call sites
+    (the output of [numpy.union1d]), where that is the order of the positions in [a]. *)
+Fixpoint np_isect_pairs (i0 : Z) (a b : list Z) : list (Z * Z) :=
+  match a with
+  | [] => []
+  | x :: t => (match np_index_of x 0 b with Some j => [(i0, j)] | None => [] end) ++ np_isect_pairs (i0 + 1) t b
+  end.
+Definition np_isect_vals (a b : list Z) : list Z := map (fun ij => pyget a (fst ij)) (np_isect_pairs 0 a b).
+Definition np_isect_a (a b : list Z) : list Z := map fst (np_isect_pairs 0 a b).
+Definition np_isect_b (a b : list Z) : list Z := map snd (np_isect_pairs 0 a b).
+
+(** [g[idx]] with an index array *)
+Definition np_take (g idx : list Z) : list Z := map (fun i => pyget g i) idx.
+
+(** [l[i] = f(l[i])] for [0 <= i] *)
+Fixpoint np_upd (f : Z -> Z) (l : list Z) (i : Z) : list Z :=
+  match l with
+  | [] => []
+  | x :: t => if i =? 0 then f x :: t else x :: np_upd f t (i - 1)
+  end.
+
+(** [r[idx] += vals] / [r[idx] = vals] with an index array of DISTINCT indices, one after the other
+    (with repeated indices numpy's buffered [+=] differs: [intersect1d] of unique arrays has none) *)
+Definition np_add_at (r idx vals : list Z) : list Z :=
+  fold_left (fun acc iv => np_upd (fun x => x + snd iv) acc (fst iv)) (combine idx vals) r.
+Definition np_set_at (r idx vals : list Z) : list Z :=
+  fold_left (fun acc iv => np_set acc (fst iv) (snd iv)) (combine idx vals) r.
+
+(** [numpy.zeros(a.shape)] *)
+Definition np_zeros_like (a : list Z) : list Z := map (fun _ => 0) a.
+
+(** ** two-column arrays ([minus_gaps]) *)
+
+(** [numpy.empty((n, 2))]: n rows of unspecified content (every row is assigned before it is read) *)
+Definition np_empty_pairs (n : Z) : list (Z * Z) := repeat (0, 0) (Z.to_nat n).
+
+(** [a[i] = x, y] for [0 <= i] *)
+Fixpoint np_set_pair (l : list (Z * Z)) (i : Z) (v : Z * Z) : list (Z * Z) :=
+  match l with
+  | [] => []
+  | x :: t => if i =? 0 then v :: t else x :: np_set_pair t (i - 1) v
+  end.
+
+(** ** dicts, 1-D empty arrays, rows ([joined_segments], [from_aligned_segments]) *)
+
+(** [numpy.empty(n)] : every element is assigned before it is read *)
+Definition np_empty (n : Z) : list Z := repeat 0 (Z.to_nat n).
+
+(** a Python dict with int keys as an association list with distinct keys (insertion order is irrelevant:
+    the only reading is [sorted(d.items())]) *)
+Fixpoint np_dict_get (d : list (Z * Z)) (k dflt : Z) : Z :=
+  match d with
+  | [] => dflt
+  | (k', v) :: t => if k' =? k then v else np_dict_get t k dflt
+  end.
+Fixpoint np_dict_set (d : list (Z * Z)) (k v : Z) : list (Z * Z) :=
+  match d with
+  | [] => [(k, v)]
+  | (k', x) :: t => if k' =? k then (k', v) :: t else (k', x) :: np_dict_set t k v
+  end.
+
+(** row [i] of a two-column array / list of pairs, Python negative wrap *)
+Definition np_row (l : list (Z * Z)) (i : Z) : Z * Z :=
+  if i <? 0 then nth (Z.to_nat (zlen l + i)) l (0, 0) else nth (Z.to_nat i) l (0, 0).
